@@ -426,4 +426,10 @@ def run(P, ctx):
                       "successful dequeue (also the one made by a batch/stream poll) is followed by the baton that wakes the next waiter — the instances of C05-6")
     for i in sub.instances:
         res.add("C06-7", i.key.split(":", 2)[2], i.status, i.detail, i.witness, i.nontrivial, i.obligations, i.where)
+    sub8 = Result("C06")
+    c05.clause8(P, sub8)
+    res.rule("C06-8", "a pending async send is woken when space is freed (bounded mpmc): every dequeue reaches the scan of the waiting senders and a claimed sender is unlinked — "
+                      "the instances of C05-8")
+    for i in sub8.instances:
+        res.add("C06-8", i.key.split(":", 2)[2], i.status, i.detail, i.witness, i.nontrivial, i.obligations, i.where)
     return res
